@@ -11,43 +11,43 @@ CHECKS = {
         "note": "Oracle is the library itself under a different schedule (exact equality, no tolerance); streams <= 60 candles quick / 200 thorough.",
     },
     "C02": {
-        "technique": "property-based testing with a history invariant (deep snapshot after every append: closed candles must be a prefix of every later snapshot) and a prefix metamorphic relation (batch over stream[:k] vs batch over the whole stream), standalone and through Hexital.get_candles() with two timeframes",
+        "technique": "property-based testing with a history invariant (deep snapshot after every append: closed candles must be a prefix of every later snapshot) and a prefix metamorphic relation (batch over stream[:k] vs batch over the whole stream), standalone and through Hexital.get_candles() with two timeframes; plus chain histories (an indicator reading another member's output, registered before or after it; generated and enumerated over the chain pool)",
         "level": EXPL,
         "ref": "DESIGN.md section 4 C02",
         "note": "Exact comparison of the library with itself at two times / two lengths; the still-forming bucket of a collapsing timeframe is excluded as the statement excludes it.",
     },
     "C03": {
-        "technique": "property-based differential testing against an independent integer resampler (Hypothesis-generated timestamp patterns x timeframes x append compositions, compared after every append) plus exhaustive enumeration of all append compositions of fixed 7-candle patterns",
+        "technique": "property-based differential testing against an independent integer resampler (Hypothesis-generated timestamp patterns x timeframes x append compositions, compared after every append) plus exhaustive enumeration of all append compositions of fixed 7-candle patterns; Hexital entry point with sibling member timeframes created in one call; timezone-aware timestamps (labels must keep the offset)",
         "level": EXPL + " All 64 compositions of ten hand-picked boundary patterns are enumerated.",
         "ref": "DESIGN.md section 4 C03",
         "note": "Trusts the 40-line reference resampler hxv/ref/resample.py and TZ=UTC pinning; streams up to 120 candles, multipliers 1-60.",
     },
     "C04": {
-        "technique": "property-based testing against textbook reference implementations in bounded (value +- rounding error) arithmetic, plus recurrence-local check, warm-up index, input-range bound and a metamorphic position-independence relation; inputs are price fields, volume, synthetic late-starting reading series and real upstream indicators",
+        "technique": "property-based testing against textbook reference implementations in bounded (value +- rounding error) arithmetic, plus recurrence-local check, warm-up index, input-range bound and a metamorphic position-independence relation; inputs are price fields, volume, synthetic late-starting reading series and real upstream indicators; a metamorphic re-tune relation (build with another period, set the attribute, recalculate() == fresh indicator) and a maintenance interlude slipped into the run",
         "level": EXPL,
         "ref": "DESIGN.md section 4 C04 and section 6",
         "note": "Trusts hxv/ref/bounded.py + hxv/ref/indicators.py (independent of hexital); the tolerance is a computed over-approximation of what the configured rounding can introduce, never a hand-picked epsilon.",
     },
     "C05": {
-        "technique": "property-based testing against independent textbook definitions (TR, ATR, sigma, BBANDS, KC, Donchian, Highest/Lowest, HLA, Supertrend, threshold flag, Counter) computed from the raw candles in bounded arithmetic; discrete decisions judged on bounded values with ambiguous cases skipped",
+        "technique": "property-based testing against independent textbook definitions (TR, ATR, sigma, BBANDS, KC, Donchian, Highest/Lowest, HLA, Supertrend, threshold flag, Counter) computed from the raw candles in bounded arithmetic; discrete decisions judged on bounded values with ambiguous cases skipped; re-tune + recalculate relation for helper-free classes, maintenance interludes, micro-tick streams on which sigma stores as exactly 0.0",
         "level": EXPL,
         "ref": "DESIGN.md section 4 C05 and section 6",
         "note": "Trusts the reference definitions; where the prose leaves a window convention open (HighestLowest) either convention is accepted consistently over a case.",
     },
     "C06": {
-        "technique": "property-based testing against independent textbook definitions (RSI, MACD, ROC, STOCH, TSI, Aroon, ADX, OBV, VWAP) in bounded arithmetic; singular points only require a value to be present; OBV compared exactly",
+        "technique": "property-based testing against independent textbook definitions (RSI, MACD, ROC, STOCH, TSI, Aroon, ADX, OBV, VWAP) in bounded arithmetic; singular points only require a value to be present; OBV compared exactly; fractional lots (OBV then judged in bounded arithmetic), re-tune + recalculate relation, maintenance interludes",
         "level": EXPL,
         "ref": "DESIGN.md section 4 C06 and section 6",
         "note": "Trusts the reference definitions; ADX start-up accepts either textbook convention for the first candle's directional movement, consistently per case.",
     },
     "C11": {
-        "technique": "property-based differential testing against a reference Heikin-Ashi recurrence over (reference-resampled) raw candles under generated append schedules, with a counting HeikinAshi subclass for the exactly-once clause, clean_values check and a plain-candle twin for the readings; standalone and Hexital with an extra timeframe",
+        "technique": "property-based differential testing against a reference Heikin-Ashi recurrence over (reference-resampled) raw candles under generated append schedules, with a counting HeikinAshi subclass for the exactly-once clause, clean_values check and a plain-candle twin for the readings; standalone and Hexital with an extra timeframe; with a candle lifespan on the base timeframe the retained candles must be the tail of the full recurrence",
         "level": EXPL,
         "ref": "DESIGN.md section 4 C11",
         "note": "Trusts hxv/ref/heikin.py and hxv/ref/resample.py; OHLC compared within 1e-9 relative.",
     },
     "C12": {
-        "technique": "property-based differential testing against the reference resampler with gap filling, plus contiguity / flat-zero-volume / real-buckets-unchanged invariants and schedule independence vs the batch run, on generated multi-gap timestamp patterns",
+        "technique": "property-based differential testing against the reference resampler with gap filling, plus contiguity / flat-zero-volume / real-buckets-unchanged invariants and schedule independence vs the batch run, on generated multi-gap timestamp patterns; with a candle lifespan (single-manager modes) the retained candles must be the tail of the untrimmed filled series; timezone-aware timestamps",
         "level": EXPL,
         "ref": "DESIGN.md section 4 C12",
         "note": "Trusts hxv/ref/resample.py; integer OHLCV so comparison is exact.",
@@ -59,7 +59,7 @@ CHECKS = {
         "note": "The precondition of the second clause is established by construction from a generous per-class look-back bound (hxv/gen/configs.py).",
     },
     "C18": {
-        "technique": "property-based in-process differential testing across process time zones (POSIX TZ rule strings incl. half-hour/45-minute offsets and DST zones, timestamps on transition days): collapse under TZ=<zone> vs TZ=UTC vs the zone-free reference resampler",
+        "technique": "property-based in-process differential testing across process time zones (POSIX TZ rule strings incl. half-hour/45-minute offsets and DST zones, timestamps on transition days): collapse under TZ=<zone> vs TZ=UTC vs the zone-free reference resampler; fresh-process shards: batches collapsed by a child interpreter started under the zone (library imported there), compared with the UTC outcome",
         "level": EXPL,
         "ref": "DESIGN.md section 4 C18",
         "note": "Relies on the C library interpreting POSIX TZ strings (no tz database needed); the harness owns TZ/tzset inside the property body.",
@@ -80,7 +80,7 @@ CHECKS.update({
         "note": "The effective configuration of a member is read off Hexital._validate_indicators; member timeframes are multiples of the Hexital's; the former open finding D33 (now repaired) is recognised by an exact mechanism predicate and reported as its own violation kind.",
     },
     "C09": {
-        "technique": "property-based testing of a validity predicate (no exception, finite values only, no gap after the first value per output field) on generators biased to degenerate regimes: flat from the start, flat tails, monotone runs, zero-volume windows, fill-inserted flats, volume inputs that dry up; one shard per class and wrapper",
+        "technique": "property-based testing of a validity predicate (no exception, finite values only, no gap after the first value per output field) on generators biased to degenerate regimes: flat from the start, flat tails, monotone runs, zero-volume windows, fill-inserted flats, volume inputs that dry up; one shard per class and wrapper; timezone-aware timestamps; maintenance interludes (recalculate, purge, recompute an index) between appends must not raise either",
         "level": EXPL,
         "ref": "DESIGN.md section 4 C09",
         "note": "Inputs restricted to what the statement admits (finite positive prices, volume >= 0); exceptions bucketed by (type, innermost library frame).",
@@ -110,19 +110,19 @@ CHECKS.update({
         "note": "Exact comparison of the library with itself on truncated input.",
     },
     "C17": {
-        "technique": "property-based testing against reference predicates written from the docstrings (movement), exact geometry formulas, constructed pattern witnesses / single-clause counter-witnesses with margin >= 2, and metamorphic scale/shift invariance on dyadic grids",
+        "technique": "property-based testing against reference predicates written from the docstrings (movement), exact geometry formulas, constructed pattern witnesses / single-clause counter-witnesses with margin >= 2, and metamorphic scale/shift invariance on dyadic grids; geometry re-read after the library rewrote the candle (HA conversion, merge, recovery)",
         "level": EXPL,
         "ref": "DESIGN.md section 4 C17",
         "note": "Behaviour near a pattern threshold is deliberately not judged; highestbar/lowestbar accept either reading of `length` consistently per case.",
     },
     "C19": {
-        "technique": "property-based stateful testing: generated programs interleaving read-only calls with appends in every input encoding, against a twin object that gets the same candles as Candle objects and no reads; deep state comparison after every operation, caller containers compared with a pre-call deep copy, Hexital timeframes compared with the reference resampler",
+        "technique": "property-based stateful testing: generated programs interleaving read-only calls with appends in every input encoding, against a twin object that gets the same candles as Candle objects and no reads; deep state comparison after every operation, caller containers compared with a pre-call deep copy, Hexital timeframes compared with the reference resampler; fractional lots",
         "level": EXPL,
         "ref": "DESIGN.md section 4 C19",
         "note": "State = all instance attributes recursively through helper indicators plus the deep candle snapshot.",
     },
     "C20": {
-        "technique": "property-based testing of pairwise accessor agreement on generated Hexitals whose members legitimately read 0 / False / dicts, for every plain and dotted name and every in-range positive and negative index",
+        "technique": "property-based testing of pairwise accessor agreement on generated Hexitals whose members legitimately read 0 / False / dicts, for every plain and dotted name and every in-range positive and negative index; Hexitals with a timeframe of their own (possibly the one a member names)",
         "level": EXPL,
         "ref": "DESIGN.md section 4 C20",
         "note": "The per-candle dicts are the reference the accessors are compared with.",
